@@ -649,6 +649,7 @@ fn run_line(ctx: &mut SrvCtx, line: &str, errno: Option<i32>) -> String {
         "SERSRV" => live::run_sersrv(&t[1..]),
         "E2E" => live::run_e2e(&t[1..]),
         "ACCADDR" => live::run_accaddr(&t[1..]),
+        "SURVIVE" => live::run_survive(&t[1..]),
         _ => "ERR cmd".into(),
     }
 }
